@@ -210,7 +210,7 @@ func Ladder(r *Rng, m int) (cnf [][]int, n int) {
 	}
 	cnf = append(cnf, append(prefix(m), 2*m), append(prefix(m), -2*m))
 	for j := m - 1; j >= 1; j-- {
-		cnf = append(cnf, append(prefix(j), -(j + 1), m+j), append(prefix(j), -(j + 1), -(m + j)))
+		cnf = append(cnf, append(prefix(j), -(j+1), m+j), append(prefix(j), -(j+1), -(m+j)))
 	}
 	cnf = append(cnf, []int{-1, n}, []int{-1, -n})
 	ren := r.Perm(n)
